@@ -1,6 +1,6 @@
 (* InitForest.v — `init_linear p'` (TopoReach.v) derived from acceptance by the checker:
      typecheck p = Accept p'  +  a decidable syntactic test on the SOURCE p (core fragment: no drop,
-     no split, no droppable forward, one provider name per process; no empty case)  +  rt_syn_ok p
+     no split, no droppable forward, one provider name per process; no empty case)  +  raw_ok p
      =>  init_linear p'.
    Ingredients: the output of the checker is its input up to annotations (TcShape, TcShapeTop), affinity of the
    bodies from C05 (LinBridge), the initial substitution renames path keys (TopoLin.pnames_subst),
